@@ -13,7 +13,12 @@ correspondence : (a) `c15_kind`  = the name dispatch of `coarse_grid_solver` vs 
                      per instance the hypothesis of the theorems is checked (every coarse call passes the object
                      `levels[-1].A`);
                  (d) `c15_store` = the store model of the constructor prologues vs the real builds: is `levels[0].A`
-                     the user's object, where does each in-place `filter_matrix_rows` of AIR land.
+                     the user's object, where does each in-place `filter_matrix_rows` of AIR land;
+                 (e) `ext_convert` (extension E27) = the model of the conversions the constructors apply to their input
+                     (`Model/ExtSpmm.lean`: COO with duplicates summed, CSC, dense, BSR -> CSR; proved to preserve the
+                     dense meaning, which makes the Galerkin step of the model independent of the input format) vs
+                     scipy's `.tocsr()` on the inputs this check feeds the constructors (n <= 24): exact as dense
+                     meanings (index / data arrays compared too, counted as a feature).
 search         : on the real constructors and `solve`:
                  purity   -- the user's A (every format) and B / BH are bitwise unchanged by every build;
                  formats  -- CSR / CSC / COO (duplicates, shuffled) / LIL / DIA / BSR / dense input give the same levels;
@@ -56,7 +61,11 @@ META = {
                     'smoothers, transfer operators, Krylov accelerators and factorisations are functions of their arguments and '
                     'never write into a level operator: observed bitwise (used versus fresh solver, operator snapshots), the '
                     'theorems take it as the shape of the model',
-                    'adaptive_sa_solver (thorough tier): purity and reproducibility only'],
+                    'adaptive_sa_solver (thorough tier): purity and reproducibility only',
+                    'format independence is proved for the conversions to CSR and for the Galerkin step at model level '
+                    '(convert_preserves_meaning, galerkin_format_independent; the model is run against scipy.sparse here and by the '
+                    'C04 check); that strength, splitting / aggregation, interpolation and smoothing see the dense meaning only is '
+                    'what the format search above observes'],
     'partial': [],
     'assumptions': ['thresholds (strength theta, AIR theta, filter theta) are chosen off the ratios that occur in the structured test '
                     'matrices (0.27, 0.47, 0.13, 0.29, ... instead of 0.25, 0.5, 0.1, 0.3): a connection exactly at a threshold is '
@@ -237,14 +246,19 @@ def gen_matrix(rng, ctor, quick, want_int=False):
     return np.ascontiguousarray(M), tags
 
 
-def make_input(D, fmt, bs=1, dtype=None, shuffle_seed=0):
-    """a FRESH object holding the matrix D in the requested format (int32 index arrays)"""
+def make_input(D, fmt, bs=1, dtype=None, shuffle_seed=0, zmask=None):
+    """a FRESH object holding the matrix D in the requested format (int32 index arrays); zmask = positions that are stored
+    although their value is zero (the formats that can hold explicit zeros keep them)"""
     D = np.array(D)
     if dtype is not None:
         D = D.astype(dtype)
     if fmt == 'dense':
         return D
-    C = sp.csr_array(D)
+    if zmask is not None:
+        rr, cc = np.nonzero((D != 0) | zmask)                 # row-major: sorted rows, sorted columns, no duplicates
+        C = sp.csr_array((D[rr, cc], (rr, cc)), shape=D.shape)
+    else:
+        C = sp.csr_array(D)
     C.indptr = C.indptr.astype(np.int32)
     C.indices = C.indices.astype(np.int32)
     if fmt == 'csr':
@@ -317,6 +331,63 @@ def snapshot(M):
     return (h, h)
 
 
+def canon_hash(M):
+    """hash of the stored arrays up to the order of the entries inside a row (CSR / BSR) or column (CSC): what an in-place
+    sort_indices() leaves invariant.  Our compressed inputs have no duplicate entries, so the canonical order is unique.
+    Other formats / dense arrays: the stored arrays themselves."""
+    if sp.issparse(M) and M.format in ('csr', 'csc', 'bsr'):
+        ptr, idx = np.asarray(M.indptr), np.asarray(M.indices)
+        nnz = int(ptr[-1]) if len(ptr) else 0
+        if len(idx) < nnz or np.any(np.diff(ptr) < 0):
+            return snapshot(M)[0]
+        major = np.repeat(np.arange(len(ptr) - 1), np.diff(ptr))
+        order = np.lexsort((idx[:nnz], major))
+        return hb(M.format, M.dtype, M.shape, getattr(M, 'blocksize', None), ptr.dtype, idx.dtype, len(idx), len(M.data),
+                  np.ascontiguousarray(ptr).tobytes(), np.ascontiguousarray(idx[:nnz][order]).tobytes(),
+                  np.ascontiguousarray(M.data[:nnz][order]).tobytes())
+    return snapshot(M)[0]
+
+
+# ------------------------------------------------------------------------------------------------
+# tiny / subnormal / explicitly stored zero entries
+# ------------------------------------------------------------------------------------------------
+
+TINY_VALUES = [1e-14, 1e-15, 2e-16, 1e-16, 9e-17, 1e-17, 1e-18, 1e-18, 1e-20, 1e-30, 1e-150, 1e-300,
+               float(np.ldexp(3.0, -1060)), float(np.ldexp(1.0, -1070))]   # the last two are subnormal, halves exact
+
+
+def decorate_tiny(rng, D, symmetric, zeros=False, count=None):
+    """weak long-range couplings: entries of magnitude 1e-14 ... subnormal (either sign; complex for complex D) at
+    off-diagonal positions where D is zero; with `zeros` also positions that are stored with the value 0.0 (returned as a
+    mask).  `symmetric` keeps D symmetric / Hermitian.  Returns (D', zmask or None)."""
+    n = D.shape[0]
+    D = np.array(D)
+    free = [(i, j) for i in range(n) for j in range(i + 1, n) if D[i, j] == 0 and D[j, i] == 0]
+    if not free:
+        return D, None
+    k = count or int(rng.integers(1, max(2, min(len(free), n) + 1)))
+    sel = rng.permutation(len(free))[:k]
+    zmask = np.zeros(D.shape, dtype=bool) if zeros else None
+    for t in sel:
+        i, j = free[int(t)]
+        if rng.random() < 0.5:
+            i, j = j, i
+        if zeros and rng.random() < 0.4:
+            zmask[i, j] = True
+            if symmetric or rng.random() < 0.5:
+                zmask[j, i] = True
+            continue
+        v = float(pick(rng, TINY_VALUES)) * (1.0 if rng.random() < 0.5 else -1.0)
+        if np.iscomplexobj(D):
+            v = v * (1.0 + 0.5j) if rng.random() < 0.7 else v * 1j
+        D[i, j] = v
+        if symmetric:
+            D[j, i] = np.conj(v)
+        elif rng.random() < 0.4:
+            D[j, i] = float(pick(rng, TINY_VALUES))
+    return D, zmask
+
+
 # ------------------------------------------------------------------------------------------------
 # option grids
 # ------------------------------------------------------------------------------------------------
@@ -342,9 +413,18 @@ def _dense_solve(A, b):
     return np.linalg.solve(A.toarray() + 1e-30 * np.eye(A.shape[0]), b)
 
 
+STRENGTH_RS = [('classical', {'theta': 0.27}), ('classical', {'theta': 0.47, 'norm': 'min'}), ('classical', {'theta': 0.0}),
+               'symmetric', ('symmetric', {'theta': 0.13}), None, 'evolution', 'energy_based', 'algebraic_distance', 'affinity']
+STRENGTH_AIR = [('classical', {'theta': 0.31, 'norm': 'min'}), ('classical', {'theta': 0.27}), 'symmetric', None, 'evolution']
+STRENGTH_SA = ['symmetric', ('symmetric', {'theta': 0.0}), ('symmetric', {'theta': 0.29}), ('classical', {'theta': 0.23}),
+               ('classical', {'theta': 0.27, 'norm': 'abs'}), 'evolution', ('evolution', {'k': 2, 'epsilon': 4.0}), None,
+               'energy_based', 'algebraic_distance', 'affinity']
+AGGREGATE_PW = [('pairwise', {'theta': 0.27, 'norm': 'min', 'matchings': 2}), ('pairwise', {'theta': 0.0, 'norm': 'abs', 'matchings': 1}),
+                ('pairwise', {'theta': 0.47, 'norm': 'min', 'matchings': 3})]
+
+
 def opts_rs(rng, tags):
-    st = pick(rng, [('classical', {'theta': 0.27}), ('classical', {'theta': 0.47, 'norm': 'min'}), ('classical', {'theta': 0.0}),
-                    'symmetric', ('symmetric', {'theta': 0.13}), None, 'evolution', 'energy_based', 'algebraic_distance', 'affinity'])
+    st = pick(rng, STRENGTH_RS)
     cf = pick(rng, [('RS', {'second_pass': False}), ('RS', {'second_pass': True}), 'PMIS', 'PMISc', 'CLJP', 'CLJPc',
                     ('PMISc', {'method': 'MIS'}), ('CLJP', {'color': True})])
     ip = pick(rng, ['classical', 'direct', ('classical', {'modified': False})])
@@ -352,7 +432,7 @@ def opts_rs(rng, tags):
 
 
 def opts_air(rng, tags):
-    st = pick(rng, [('classical', {'theta': 0.31, 'norm': 'min'}), ('classical', {'theta': 0.27}), 'symmetric', None, 'evolution'])
+    st = pick(rng, STRENGTH_AIR)
     cf = pick(rng, [('RS', {'second_pass': True}), ('RS', {'second_pass': False}), 'PMIS', 'PMISc', 'CLJP', 'CLJPc'])
     ip = pick(rng, ['one_point', 'one_point', 'inject', 'classical', 'direct', ('one_point', {'by_val': True})])
     rs = pick(rng, [('air', {'theta': 0.053, 'degree': 2}), ('air', {'theta': 0.11, 'degree': 1}), 'air',
@@ -415,9 +495,7 @@ def opts_sa(rng, tags, root=False):
     cplx = tags['complex']
     fam = tags['fam']
     sym = 'nonsymmetric' if fam == 'upwind' else pick(rng, ['hermitian', 'hermitian', 'symmetric', 'nonsymmetric'])
-    st = pick(rng, ['symmetric', ('symmetric', {'theta': 0.0}), ('symmetric', {'theta': 0.29}), ('classical', {'theta': 0.23}),
-                    ('classical', {'theta': 0.27, 'norm': 'abs'}), 'evolution', ('evolution', {'k': 2, 'epsilon': 4.0}), None,
-                    'energy_based', 'algebraic_distance', 'affinity'])
+    st = pick(rng, STRENGTH_SA)
     ag = pick(rng, ['standard', 'standard', 'naive', 'lloyd', ('lloyd', {'ratio': 0.3, 'maxiter': 3}), 'pairwise',
                     ('pairwise', {'theta': 0.27, 'norm': 'min', 'matchings': 1})])
     if cplx and name_of(ag) in ('pairwise', 'lloyd'):
@@ -443,9 +521,15 @@ def opts_sa(rng, tags, root=False):
 
 
 def opts_pw(rng, tags):
-    ag = pick(rng, [('pairwise', {'theta': 0.27, 'norm': 'min', 'matchings': 2}), ('pairwise', {'theta': 0.0, 'norm': 'abs', 'matchings': 1}),
-                    ('pairwise', {'theta': 0.47, 'norm': 'min', 'matchings': 3})])
+    ag = pick(rng, AGGREGATE_PW)
     return {'aggregate': ag}
+
+
+def zeros_are_dropped_in_place(kw):
+    """evolution_strength_of_connection calls A.eliminate_zeros() on the matrix it is given, for CSR input the user's object:
+    stored zeros disappear from the user's arrays (the represented matrix stays).  Reported; until it is fixed or listed in
+    KNOWN_FINDINGS.txt this input class (explicitly stored zeros x strength='evolution') is left out of the generators."""
+    return name_of(kw.get('strength')) == 'evolution'
 
 
 def gen_case(rng, quick, ctor=None, reuse=False):
@@ -454,6 +538,13 @@ def gen_case(rng, quick, ctor=None, reuse=False):
     want_int = rng.random() < 0.12
     D, tags = gen_matrix(rng, ctor, quick, want_int)
     n = D.shape[0]
+    zmask = None
+    if not tags.get('int') and n >= 4 and rng.random() < 0.22:
+        # stored entries far below the rounding level of the others (down to subnormal), optionally explicit zeros
+        D, zmask = decorate_tiny(rng, D, symmetric=tags['fam'] != 'upwind', zeros=bool(rng.random() < 0.4))
+        if zmask is not None and not zmask.any():
+            zmask = None
+        tags['tiny'] = 'values' if zmask is None else 'values+zeros'
     if ctor == 'rs':
         kw = opts_rs(rng, tags)
     elif ctor == 'air':
@@ -462,6 +553,9 @@ def gen_case(rng, quick, ctor=None, reuse=False):
         kw = opts_pw(rng, tags)
     else:
         kw = opts_sa(rng, tags, root=(ctor == 'rn'))
+    if zmask is not None and zeros_are_dropped_in_place(kw):
+        zmask = None
+        tags['tiny'] = 'values'
     kw['max_levels'] = int(pick(rng, [1, 2, 2, 3, 3, 4, 10, 10, 10, 10, 10, 10, 10, 10, 10]))
     kw['max_coarse'] = int(pick(rng, [1, 2, 3, 3, 5, 5, 8]))
     kw['keep'] = bool(rng.random() < 0.5) if ctor != 'pw' else None
@@ -514,10 +608,19 @@ def gen_case(rng, quick, ctor=None, reuse=False):
         if dtype == 'float32':
             pre = post = pick(rng, ['gauss_seidel', 'jacobi', None])
         kw['presmoother'], kw['postsmoother'] = pre, post
+        if reuse and n >= 4 and rng.random() < 0.15:
+            # two different smoothers that keep something on the level / the level matrix (user subdomains, block sizes, ...)
+            sps = shared_specs((D != 0) if zmask is None else ((D != 0) | zmask), n, rng)
+            ia, ib = (int(v) for v in rng.permutation(len(sps))[:2])
+            kw['presmoother'], kw['postsmoother'] = per_level(sps[ia], 99), per_level(sps[ib], 99)
+            tags['shared_pair'] = sps[ia][0] + '/' + sps[ib][0]
         kw['coarse_solver'] = pick(rng, COARSE)
         if kw['coarse_solver'] == RHO_PLACEHOLDER:
             kw['coarse_solver'] = pick(rng, list(RHO_COARSE))
-    return {'ctor': ctor, 'A': D, 'dtype': dtype, 'bs': bs, 'kw': kw, 'seed': int(rng.integers(2 ** 31)), 'tags': tags}
+    case = {'ctor': ctor, 'A': D, 'dtype': dtype, 'bs': bs, 'kw': kw, 'seed': int(rng.integers(2 ** 31)), 'tags': tags}
+    if zmask is not None:
+        case['zmask'] = zmask
+    return case
 
 
 def real_kw(kw):
@@ -540,10 +643,11 @@ class Built:
 def build(case, fmt, bs=1, shuffle_seed=0, trace_air=False):
     """build on a FRESH input object; returns Built (ml or exc, input object, user arrays before/after)"""
     out = Built()
-    Ain = make_input(case['A'], fmt, bs, case.get('dtype'), shuffle_seed)
+    Ain = make_input(case['A'], fmt, bs, case.get('dtype'), shuffle_seed, case.get('zmask'))
     kw = real_kw(case['kw'])
     out.Ain, out.kw = Ain, kw
     out.snapA0 = snapshot(Ain)
+    out.canonA0 = canon_hash(Ain)
     out.snapB0 = {k: snapshot(kw.get(k)) for k in ('B', 'BH')}
     out.air = None
     np.random.seed(case['seed'])
@@ -561,6 +665,7 @@ def build(case, fmt, bs=1, shuffle_seed=0, trace_air=False):
     except Exception as e:  # noqa: BLE001
         out.ml, out.exc = None, e
     out.snapA1 = snapshot(Ain)
+    out.canonA1 = canon_hash(Ain)
     out.snapB1 = {k: snapshot(kw.get(k)) for k in ('B', 'BH')}
     return out
 
@@ -676,8 +781,11 @@ def opt_names(kw):
 
 
 def case_summary(case, fmt=None, bs=None):
-    return {'ctor': case['ctor'], 'n': int(case['A'].shape[0]), 'fam': case['tags']['fam'], 'fmt': fmt, 'bs': bs,
-            'dtype': case.get('dtype') or str(case['A'].dtype), 'options': opt_names(case['kw'])}
+    out = {'ctor': case['ctor'], 'n': int(case['A'].shape[0]), 'fam': case['tags']['fam'], 'fmt': fmt, 'bs': bs,
+           'dtype': case.get('dtype') or str(case['A'].dtype), 'options': opt_names(case['kw'])}
+    if case['tags'].get('tiny'):
+        out['tiny_entries'] = case['tags']['tiny']
+    return out
 
 
 def replay_payload(kind, case, **extra):
@@ -733,7 +841,14 @@ def eval_build_case(ctx, case, fmts, pending_store):
                           f'{"" if fmt != "bsr" else f" blocksize {bs}"}, dtype {summ["dtype"]}); options {summ["options"]}',
                           payload(fmt=fmt, bs=bs, what='purity'))
         elif b.snapA0[0] != b.snapA1[0]:
-            ctx.feat('user_matrix_storage_reordered_content_same')
+            if b.canonA0 == b.canonA1:
+                ctx.feat('user_matrix_storage_reordered_content_same')     # in-place sort_indices of CSR / CSC / BSR
+            else:
+                # same represented matrix, but the stored arrays are not a re-ordering inside the rows of what the user
+                # passed (stored zeros dropped or overwritten, index arrays replaced, entries merged, ...)
+                ctx.violation(f'{ctor}: the build changed the stored arrays (data / indices / indptr) of the user\'s matrix, '
+                              f'not only the order inside a row (format {fmt}{"" if fmt != "bsr" else f" blocksize {bs}"}, dtype '
+                              f'{summ["dtype"]}); options {summ["options"]}', payload(fmt=fmt, bs=bs, what='purity'))
         for k in ('B', 'BH'):
             if b.snapB0[k] != b.snapB1[k]:
                 ctx.violation(f'{ctor}: the build changed the user\'s candidate array {k} (format {fmt}); options {summ["options"]}',
@@ -743,6 +858,8 @@ def eval_build_case(ctx, case, fmts, pending_store):
              sample={**summ, 'levels': nlev} if ctx.evaluations % 97 == 0 else None)
     ctx.feat('ctor:' + ctor)
     ctx.feat('levels:' + str(min(nlev, 5)))
+    if case['tags'].get('tiny'):
+        ctx.feat('tiny_entries:' + case['tags']['tiny'])
     if ref.exc is not None:
         ctx.feat('reference_build_raises:' + type(ref.exc).__name__)
     check_purity(ref, 'csr', 1)
@@ -779,6 +896,8 @@ def eval_build_case(ctx, case, fmts, pending_store):
         check_purity(b, fmt, bs)
         if fmt == 'csr_unsorted':
             continue          # the same format with another storage order: purity only
+        if case.get('zmask') is not None:
+            continue          # explicitly stored zeros exist in some formats only (they are entries of the graph): purity only
         store_item(b, fmt, bs)
         fk = classify_format(case, fmt, bs, ref.exc is None, b.exc)
         if fk == K_RS_BSR_ZEROS:
@@ -856,6 +975,56 @@ def smoother_core(ctx, q):
                         'tags': {'fam': fam, 'complex': False}}
                 eval_build_case(ctx, case, [('bsr', 1), ('bsr', 2)], pending)
                 ctx.feat('smoother_core')
+    flush_store(ctx, pending, q)
+
+
+def tiny_core(ctx, rng, q):
+    """a fixed grid that runs whatever the seed: every constructor x every strength option (pairwise: every aggregation
+    option) on matrices that store entries of magnitude 1e-14 ... subnormal and explicit zeros (positions and values from the
+    seed), real and complex, candidates with such entries too; evaluated like every build case (stored arrays of the user's
+    matrix and of B / BH before/after, same-seed reproducibility, CSR / CSC / BSR input)"""
+    pending = []
+    Dsym = np.ascontiguousarray(stencil2d(5, 4, eps=0.5) * (1.0 / 3.0))
+    Dnon = np.ascontiguousarray(stencil2d(5, 4, eps=0.5, conv=2.0) * 0.7)
+    Dc = gen.spd_matrix(rng, 18, 'poisson1d', complex_=True).toarray() * 0.7
+    grid = ([('rs', st) for st in STRENGTH_RS] + [('air', st) for st in STRENGTH_AIR] + [('sa', st) for st in STRENGTH_SA]
+            + [('rn', st) for st in STRENGTH_SA] + [('pw', ag) for ag in AGGREGATE_PW])
+    other = [('csc', 1), ('bsr', 1), ('bsr', 2), ('coo', 1)]
+    for j, (ctor, opt) in enumerate(grid):
+        variants = [(Dnon, 'upwind', 'nonsymmetric')] if ctor == 'air' else [(Dsym, 'aniso', 'hermitian')]
+        if ctor in ('sa', 'rn') and name_of(opt) in ('symmetric', 'classical', 'evolution'):
+            variants.append((Dc, 'cherm', 'hermitian'))
+        elif ctor != 'air' and j % 3 == 0:
+            variants.append((Dnon, 'upwind', 'nonsymmetric'))
+        for D0, fam, sym in variants:
+            n = D0.shape[0]
+            cplx = bool(np.iscomplexobj(D0))
+            if ctor == 'pw':
+                kw = {'aggregate': opt}
+            else:
+                kw = {'strength': opt, 'keep': bool(j % 2)}
+            if ctor in ('sa', 'rn'):
+                kw.update({'symmetry': sym, 'aggregate': 'standard', 'smooth': fit_symmetry('energy' if ctor == 'rn' else 'jacobi', sym, fam),
+                           'improve_candidates': [('gauss_seidel', {'sweep': 'symmetric', 'iterations': 2}), None] if j % 2 else None})
+                Bk = np.ones((n, 2), dtype=D0.dtype)
+                Bk[:, 1] = np.arange(n) / (n - 1.0) + 0.01
+                for i in rng.permutation(n)[:5]:
+                    Bk[int(i), 1] = float(pick(rng, TINY_VALUES + [0.0, -0.0]))
+                kw['B'] = Bk
+                if sym == 'nonsymmetric':
+                    kw['BH'] = Bk.copy()
+            kw.update({'max_levels': 3, 'max_coarse': 2})
+            zeros = not zeros_are_dropped_in_place(kw)
+            D, zmask = decorate_tiny(rng, D0, symmetric=fam != 'upwind', zeros=zeros, count=10)
+            tags = {'fam': fam, 'complex': cplx, 'tiny': 'values+zeros' if zeros else 'values'}
+            case = {'ctor': ctor, 'A': D, 'dtype': None, 'bs': 2, 'kw': kw, 'seed': 777 + j, 'tags': tags}
+            if zeros and zmask is not None and zmask.any():
+                case['zmask'] = zmask
+            fm = [other[j % len(other)]]
+            if j % 4 == 3:
+                fm.append(('csr_unsorted', 1))
+            eval_build_case(ctx, case, fm, pending)
+            ctx.feat('tiny_core')
     flush_store(ctx, pending, q)
 
 
@@ -1027,6 +1196,8 @@ def eval_reuse_case(ctx, case, history, last, fmt, bs):
              nontrivial=bool(history) and (nlev >= 2 or cs in ('pinv', 'lu', 'cholesky', 'splu')),
              sample={**summ, 'levels': nlev, 'history': [str(h) for h in hshape]} if ctx.evaluations % 61 == 0 else None)
     ctx.feat('reuse_ctor:' + ctor)
+    if case['tags'].get('shared_pair'):
+        ctx.feat('reuse_shared_cache_pair')
     ctx.feat('coarse:' + cs)
     ctx.feat('history_len:' + str(len(history)))
     ctx.feat('last:' + last['kind'] + ':' + str(last.get('cycle')).upper() + ':' + str(last.get('accel', 'none')))
@@ -1112,6 +1283,117 @@ def reuse_stream(ctx, rng, count):
 
 
 # ------------------------------------------------------------------------------------------------
+# smoother pairs that share per-level caches (format copies Acsr / Acsc / Absr, Schwarz parameters, block inverses, spectral
+# radii on the level matrix): pre != post
+# ------------------------------------------------------------------------------------------------
+
+def user_subdomains(P, kind, rng=None):
+    """user-chosen Schwarz subdomains (one sorted index set per row) derived from the boolean pattern P:
+    'transpose' = incoming instead of outgoing connections, 'rotate' = the set of the next row (both keep the array lengths of
+    the default / strength-based subdomains, the content differs), 'blocks' = contiguous blocks of three, 'random' = the row
+    plus random extra nodes"""
+    n = P.shape[0]
+    P = np.array(P, dtype=bool) | np.eye(n, dtype=bool)
+    if kind == 'transpose':
+        Q = P.T
+    elif kind == 'rotate':
+        Q = np.roll(P, -1, axis=0)
+    elif kind == 'blocks':
+        g = np.arange(n) // 3
+        Q = g[:, None] == g[None, :]
+    else:
+        Q = P | (rng.random((n, n)) < 2.0 / n)
+    C = sp.csr_array(Q.astype(float))
+    C.sort_indices()
+    return {'subdomain': C.indices.astype(np.int32), 'subdomain_ptr': C.indptr.astype(np.int32)}
+
+
+def shared_specs(P, n, rng):
+    """(label, option for the finest level, option for the coarser levels) for every smoother that keeps something on the
+    level or on the level matrix"""
+    out = [('schwarz_rot', ('schwarz', user_subdomains(P, 'rotate')), 'schwarz'),
+           ('schwarz_T', ('schwarz', dict(user_subdomains(P, 'transpose'), sweep='backward')), ('schwarz', {'sweep': 'backward'})),
+           ('schwarz_rnd', ('schwarz', dict(user_subdomains(P, str(pick(rng, ['blocks', 'random'])), rng), iterations=2)), 'schwarz'),
+           ('schwarz', 'schwarz', 'schwarz'),
+           ('sb_schwarz', 'strength_based_schwarz', 'strength_based_schwarz'),
+           ('sb_schwarz2', ('strength_based_schwarz', {'iterations': 2, 'sweep': 'symmetric'}),
+            ('strength_based_schwarz', {'iterations': 2, 'sweep': 'symmetric'}))]
+    for b in (2, 3):
+        if n % b == 0:
+            out.append((f'block_jacobi{b}', ('block_jacobi', {'blocksize': b}), 'block_jacobi'))
+            out.append((f'block_gs{b}', ('block_gauss_seidel', {'blocksize': b, 'sweep': 'symmetric' if b == 3 else 'forward'}),
+                        'block_gauss_seidel'))
+    out += [(nm, nm, nm) for nm in ('jacobi_ne', 'gauss_seidel_ne', 'gauss_seidel_nr', 'chebyshev', 'jacobi')]
+    out.append(('chebyshev2', ('chebyshev', {'degree': 2, 'iterations': 2}), ('chebyshev', {'degree': 2, 'iterations': 2})))
+    out.append(('jacobi_ne_w', ('jacobi_ne', {'omega': 0.9, 'withrho': False}), ('jacobi_ne', {'omega': 0.9, 'withrho': False})))
+    return out
+
+
+def per_level(spec, max_levels):
+    """options tied to the finest level (index sets, block sizes) are given level by level"""
+    return spec[1] if max_levels <= 2 or spec[1] == spec[2] else [spec[1], spec[2]]
+
+
+def pair_core(ctx, rng):
+    """every ordered pair pre != post of the cache-sharing smoothers: the observed solve on a solver that has solved before
+    (the same call, or two other calls) against a never-used solver of the same build, bit for bit; operators unchanged"""
+    Dsym = np.ascontiguousarray(stencil2d(6, 6, eps=0.5) * (1.0 / 3.0))
+    Dnon = np.ascontiguousarray(stencil2d(6, 6, eps=0.5, conv=2.0) * 0.7)
+    n = Dsym.shape[0]
+    patterns = {}
+    labels = [sp_[0] for sp_ in shared_specs(Dsym != 0, n, np.random.default_rng(0))]
+    pairs = [(a, b) for a in range(len(labels)) for b in range(len(labels)) if a != b]
+    for t, (ia, ib) in enumerate(pairs):
+        if out_of_time(ctx, 40, 300):
+            ctx.feat('pair_budget_cut')
+            break
+        ctor = str(pick(rng, ['sa', 'sa', 'rs', 'rn', 'air']))
+        non = ctor == 'air' or rng.random() < 0.4
+        D, fam = (Dnon, 'upwind') if non else (Dsym, 'aniso')
+        keep = bool(rng.random() < 0.5)
+        max_levels = int(pick(rng, [2, 2, 2, 3]))
+        if ctor in ('sa', 'rn'):
+            sym = 'nonsymmetric' if non else 'hermitian'
+            kw = {'symmetry': sym, 'strength': pick(rng, [('classical', {'theta': 0.47}), ('symmetric', {'theta': 0.13}), None]),
+                  'smooth': fit_symmetry('energy' if ctor == 'rn' else 'jacobi', sym, fam)}
+        elif ctor == 'rs':
+            kw = {'strength': pick(rng, [('classical', {'theta': 0.47}), ('classical', {'theta': 0.27}), None])}
+        else:
+            kw = {'strength': ('classical', {'theta': 0.31, 'norm': 'min'})}
+        kw.update({'keep': keep, 'max_levels': max_levels, 'max_coarse': 3,
+                   'coarse_solver': pick(rng, ['pinv', 'splu', 'lu'])})
+        case = {'ctor': ctor, 'A': D, 'dtype': None, 'bs': 1, 'kw': kw, 'seed': 4242 + t, 'tags': {'fam': fam, 'complex': False}}
+        # the subdomains of the strength-based smoother on the finest level: pattern of C (kept) or of A
+        pk = (ctor, non, keep, repr(kw['strength']))
+        if pk not in patterns:
+            probe = build(case, 'csr')
+            if probe.ml is None:
+                patterns[pk] = None
+            else:
+                lv = probe.ml.levels[0]
+                patterns[pk] = (lv.C if hasattr(lv, 'C') else lv.A).toarray() != 0
+        if patterns[pk] is None:
+            ctx.feat('reuse_build_raises')
+            continue
+        specs = shared_specs(patterns[pk], n, rng)
+        kw['presmoother'] = per_level(specs[ia], max_levels)
+        kw['postsmoother'] = per_level(specs[ib], max_levels)
+        b1 = rng.integers(-4, 5, size=n) / 3.0
+        b2 = rng.integers(-4, 5, size=n) / 3.0
+        x0 = rng.integers(-3, 4, size=n) / 5.0
+        last = {'kind': 'solve', 'seed': 11, 'b': b2, 'x0': x0, 'cycle': str(pick(rng, ['V', 'V', 'W', 'F'])), 'tol': 1e-30, 'maxiter': 3}
+        if t % 2 == 0:
+            history = [copy.deepcopy(last)]                  # the same call twice on one object
+        else:
+            history = [{'kind': 'solve', 'seed': 12, 'b': b1, 'cycle': 'V', 'tol': 1e-30, 'maxiter': 2},
+                       {'kind': 'solve', 'seed': 13, 'b': b1.reshape(-1, 1), 'x0': x0.reshape(-1, 1), 'cycle': 'W', 'tol': 1e-3, 'maxiter': 2,
+                        'residuals': []}]
+        ctx.feat('pair:' + specs[ia][0] + '/' + specs[ib][0])
+        ctx.feat('pair_core')
+        eval_reuse_case(ctx, case, history, last, 'csr', 1)
+
+
+# ------------------------------------------------------------------------------------------------
 # part A: the cache state machine and the call structure against the real objects
 # ------------------------------------------------------------------------------------------------
 
@@ -1170,6 +1452,85 @@ class LeanQueue:
         for (line, handler), o in zip(self.items, outs):
             handler(line, o)
         self.items = []
+
+
+# ------------------------------------------------------------------------------------------------
+# extension E27: the input conversions of the sparse-algebra model against scipy's tocsr()
+# ------------------------------------------------------------------------------------------------
+
+def _fr(x):
+    a, b = x.as_integer_ratio()          # lowest terms, positive denominator: the form the driver prints
+    return str(a) if b == 1 else f'{a}/{b}'
+
+
+def sp_vals(v, cplx=None):
+    v = np.asarray(v).reshape(-1)
+    if v.size == 0:
+        return '-'
+    if np.iscomplexobj(v) if cplx is None else cplx:
+        v = v.astype(complex)
+        return ','.join(_fr(a) + '|' + _fr(b) for a, b in zip(v.real.tolist(), v.imag.tolist()))
+    return ','.join(_fr(a) for a in v.astype(float).tolist())
+
+
+def sp_ints(v):
+    v = np.asarray(v).reshape(-1)
+    return ','.join(map(str, v.tolist())) if v.size else '-'
+
+
+def sp_token(M):
+    """raw arrays of a scipy.sparse object / ndarray as a matrix token of `ext_convert`"""
+    if isinstance(M, np.ndarray):
+        return f'dense:{M.shape[0]}:{M.shape[1]}:' + sp_vals(M)
+    r, c = M.shape
+    if M.format == 'coo':
+        return f'coo:{r}:{c}:{sp_ints(M.row)}:{sp_ints(M.col)}:{sp_vals(M.data)}'
+    nnz = int(M.indptr[-1])
+    if M.format == 'bsr':
+        br, bc = M.blocksize
+        return f'bsr:{r}:{c}:{br}:{bc}:{sp_ints(M.indptr)}:{sp_ints(M.indices[:nnz])}:{sp_vals(M.data[:nnz])}'
+    return f'{M.format}:{r}:{c}:{sp_ints(M.indptr)}:{sp_ints(M.indices[:nnz])}:{sp_vals(M.data[:nnz])}'
+
+
+def part_convert(ctx, rng, count, q):
+    for t in range(count):
+        ctor = str(pick(rng, ['rs', 'sa', 'sa', 'air']))
+        D, tags = gen_matrix(rng, ctor, True)
+        n = D.shape[0]
+        if n > 24:
+            k = int(rng.integers(2, 25))
+            D = D[:k, :k]
+            n = k
+        if rng.random() < 0.3 and n >= 2:
+            D = D[:, :n - 1]                      # conversions are not restricted to square matrices
+        seed = int(rng.integers(1, 2 ** 31))
+        inputs = [('csr_unsorted', 1), ('coo', 1), ('csc', 1), ('dense', 1)]
+        inputs += [('bsr', b) for b in (1, 2, 3) if D.shape[0] % b == 0 and D.shape[1] % b == 0]
+        for fmt, bs in inputs:
+            if fmt == 'bsr' and bs > 1:
+                X = sp.bsr_array(sp.csr_array(D), blocksize=(bs, bs))
+            else:
+                X = make_input(D, fmt, bs, shuffle_seed=seed)
+            C = sp.csr_array(X) if isinstance(X, np.ndarray) else X.tocsr()
+            nnz = int(C.indptr[-1])
+            impl = (f'{C.shape[0]}:{C.shape[1]}:{sp_ints(C.indptr)}:{sp_ints(C.indices[:nnz])}:{sp_vals(C.data[:nnz], cplx=True)}',
+                    sp_vals(C.toarray(), cplx=True), sp_vals(np.asarray(D), cplx=True))
+            q.add('ext_convert ' + sp_token(X),
+                  lambda line, o, fmt=fmt, bs=bs, impl=impl, shape=D.shape: convert_one(ctx, line, o, fmt, bs, impl, shape))
+
+
+def convert_one(ctx, line, o, fmt, bs, impl, shape):
+    name = fmt + (str(bs) if fmt == 'bsr' else '')
+    ctx.case(key=_key('convert', name, shape), nontrivial=shape[0] >= 2)
+    ctx.feat('convert:' + name)
+    parts = o.split(';')
+    if len(parts) != 2 or parts[1] != impl[1]:
+        ctx.corr('ext_convert', {'line': line[:600], 'format': name}, o[:400], impl[1][:400])
+        # the property behind it: scipy's conversion keeps the represented matrix
+        if impl[1] != impl[2]:
+            ctx.violation(f'scipy conversion of a {name} input to CSR changed the represented matrix', {'convert': line[:2000]})
+        return
+    ctx.feat('convert:layout-same' if parts[0] == impl[0] else 'convert:layout-differs:' + name)
 
 
 def part_kind(ctx, q):
@@ -1477,7 +1838,10 @@ def run(ctx):
     for _ in range(ctx.scale(2, 10)):
         int64_case(ctx, rng)
     smoother_core(ctx, q)
+    tiny_core(ctx, np.random.default_rng(ctx.rng.getrandbits(31)), q)
+    part_convert(ctx, np.random.default_rng(ctx.rng.getrandbits(31)), ctx.scale(40, 400), q)   # own stream: ctx.np_rng untouched
     build_stream(ctx, rng, ctx.scale(200, 7000), q)
+    pair_core(ctx, np.random.default_rng(ctx.rng.getrandbits(31)))
     reuse_stream(ctx, rng, ctx.scale(450, 16000))
     if not ctx.quick:
         for _ in range(80):
